@@ -113,13 +113,13 @@ package otp
 //@   let d = param == nil ? 6 : param.Digits
 //@   let a = param == nil ? 0 : param.Algorithm
 //@   let s = param == nil ? 2 : param.Skew
-//@   requires counter + min(s, 10) <= 18446744073709551615
+//@   domain counter + min(s, 10) <= 18446744073709551615
 //@   ensures[refuse] s > 10 ==> !ok && err != nil
 //@   ensures[badsecret] s <= 10 && !b32ok(secret) ==> !ok && err != nil
 //@   ensures[window] s <= 10 && b32ok(secret) ==> (ok <==> hotpok(a, d) && len(code) == d &&
 //@ |    exists j in -10..10 :: -s <= j && j <= s && counter + j >= 0 && code == hotp(a, b32key(secret), counter + j, d))
 //@   ensures[verdict] (ok && err == nil) || (!ok && err != nil)
-//@   loop 1 invariant -s <= i && i <= s + 1 && s <= 10 && skew == s && b32ok(secret) && view(secretBuf) == b32key(secret)
+//@   loop 1 invariant[safe] -s <= i && i <= s + 1 && s <= 10 && skew == s && b32ok(secret) && view(secretBuf) == b32key(secret)
 //@   loop 1 invariant forall j in -10..10 :: -s <= j && j < i && counter + j >= 0 ==>
 //@ |    !(hotpok(a, d) && len(code) == d && code == hotp(a, b32key(secret), counter + j, d))
 //@   loop 1 decreases s + 1 - i
@@ -131,7 +131,7 @@ package otp
 //@   let a = param == nil ? 0 : param.Algorithm
 //@   let p = param == nil ? 30 : (param.Period == 0 ? 30 : param.Period)
 //@   let u = unixsec(t.wall, t.ext)
-//@   requires u >= 0
+//@   domain u >= 0
 //@   ensures[rfc6238] b32ok(secret) && hotpok(a, d) ==> err == nil && code == hotp(a, b32key(secret), u / p, d)
 //@   ensures[reject] !(b32ok(secret) && hotpok(a, d)) ==> err != nil && code == ""
 
@@ -143,13 +143,14 @@ package otp
 //@   let s = param == nil ? 0 : param.Skew
 //@   let p = param == nil ? 30 : (param.Period == 0 ? 30 : param.Period)
 //@   let u = unixsec(t.wall, t.ext)
-//@   requires u >= 0 && u < 4611686018427387904 && u / p >= min(s, 10)
+//@   domain u >= 0 && u < 4611686018427387904 && u / p >= min(s, 10)
 //@   ensures[refuse] s > 10 ==> !ok && err != nil
 //@   ensures[badsecret] s <= 10 && !b32ok(secret) ==> !ok && err != nil
 //@   ensures[window] s <= 10 && b32ok(secret) ==> (ok <==> hotpok(a, d) && len(code) == d &&
 //@ |    exists j in -10..10 :: -s <= j && j <= s && code == hotp(a, b32key(secret), u / p + j, d))
 //@   ensures[verdict] (ok && err == nil) || (!ok && err != nil)
-//@   loop 1 invariant -s <= i && i <= s + 1 && s <= 10 && skew == s && counter == u / p && b32ok(secret) && view(secretBuf) == b32key(secret)
+//@   loop 1 invariant[safe] -s <= i && i <= s + 1 && s <= 10 && skew == s && b32ok(secret) && view(secretBuf) == b32key(secret)
+//@   loop 1 invariant counter == u / p
 //@   loop 1 invariant forall j in -10..10 :: -s <= j && j < i ==>
 //@ |    !(hotpok(a, d) && len(code) == d && code == hotp(a, b32key(secret), u / p + j, d))
 //@   loop 1 decreases s + 1 - i
